@@ -6,7 +6,7 @@ Require BSgen.Consts.
 Import ListNotations.
 Close Scope N_scope. Open Scope nat_scope.
 
-Definition entry := (N * N)%type.        (* (timestamp, meta_start) *)
+Notation entry := (N * N)%type (only parsing).        (* (timestamp, meta_start) *)
 Record index := { ix_file : ofile; ix_entries : list entry; ix_last : option N }.
 
 Definition ESZ : N := BSgen.Consts.index_entry_size.
